@@ -204,6 +204,12 @@ class Interp:
         if isinstance(t, ast.UnaryOp) and isinstance(t.op, ast.Not):
             v = self.truth(t.operand)
             return None if v is None else (not v)
+        if isinstance(t, ast.Call):
+            from .c02 import inline_predicate
+
+            t2 = inline_predicate(self.fn.cls, t)
+            if t2 is not t:
+                return self.truth(t2)
         if isinstance(t, ast.Compare) and len(t.ops) == 1:
             l, op, r = t.left, t.ops[0], t.comparators[0]
             # threshold comparisons -------------------------------------------------
@@ -656,6 +662,10 @@ MUTANTS = [
       "                self.fandango.average_population_fitness * 1.0001\n                < self.fandango.evaluator.expected_fitness", "R03-c"),
 ]
 TWINS = [
+    M("twin-extract-acceptance-predicate", _EV, "        if fitness >= self._expected_fitness and key not in self._solution_set:\n            self._solution_set.add(key)\n            yield individual\n",
+      "        if self._reaches_threshold(fitness) and key not in self._solution_set:\n            self._solution_set.add(key)\n            yield individual\n", None,
+      more=(("    def evaluate_population(self, population: list[DerivationTree]) -> Generator[\n        DerivationTree,\n        None,\n        list[tuple[DerivationTree, float, list[FailingTree], Suggestion]],\n    ]:\n        evaluation = []",
+             "    def _reaches_threshold(self, value: float) -> bool:\n        return value >= self._expected_fitness\n\n    def evaluate_population(self, population: list[DerivationTree]) -> Generator[\n        DerivationTree,\n        None,\n        list[tuple[DerivationTree, float, list[FailingTree], Suggestion]],\n    ]:\n        evaluation = []"),)),
     M("twin-rename-total", _EV, "total_constraint_count", "n_constraints", None, count=4),
     M("twin-reorder-sum", _EV, "            len(self._hard_constraints)\n            + len(self._repetition_bounds_constraints)\n            + len(self._soft_constraints)",
       "            len(self._soft_constraints)\n            + len(self._hard_constraints)\n            + len(self._repetition_bounds_constraints)", None),
